@@ -120,6 +120,26 @@ func (sc *Scope) call(e ECall) Val {
 			return boolVal(t)
 		}
 		return Val{T: t, Ty: rt}
+	case "fn", "boundfn":
+		// fn("key"): the function value of the named function or closure; boundfn("key", x): the method value x.M
+		if len(e.Args) < 1 {
+			sc.fail("%s expects a function key", e.Fun)
+		}
+		l, ok := e.Args[0].(ELit)
+		if !ok || l.Kind != "string" {
+			sc.fail("%s expects a string literal", e.Fun)
+		}
+		key, _ := strconv.Unquote(l.Val)
+		if _, known := x.w.Funcs[key]; !known {
+			sc.fail("%s: no function %q in the program", e.Fun, key)
+		}
+		if e.Fun == "fn" {
+			argN(1)
+			return Val{T: c.fnConst(key), K: "raw:Fn"}
+		}
+		argN(2)
+		r := sc.eval(e.Args[1])
+		return Val{T: c.boundFn(key, c.sortOf(r.Ty), r.T), K: "raw:Fn"}
 	case "selected", "offers":
 		// selected(ch): the function's (last, in program order) select statement completed with the case on channel ch;
 		// offers(ch): that select has a case on channel ch
@@ -317,7 +337,16 @@ func (sc *Scope) applyUF(uf *SpecUF, args []string) Val {
 	}
 	t := n
 	if len(args) > 0 {
-		t = sx(n, args...)
+		// Go's == on interface values treats all nil interfaces as one value: an uninterpreted function of an
+		// interface argument must not tell them apart either
+		na := make([]string, len(args))
+		for i, a := range args {
+			na[i] = a
+			if i < len(ps) && ps[i] == "Iface" && a != "(mk_iface 0 box0)" {
+				na[i] = ite(eq(sx("itag", a), "0"), "(mk_iface 0 box0)", a)
+			}
+		}
+		t = sx(n, na...)
 	}
 	if rt != nil {
 		if isBool(rt) {
